@@ -202,16 +202,17 @@ class Tree:
         assert node._tree is self
         # node._tree = self
         assert node._node_id and node._node_id not in self._node_by_id, f"{node}"
-        self._node_by_id[node._node_id] = node
-        try:
-            clone_list = self._nodes_by_data_id[node._data_id]  # may raise KeyError
+        # Look up the data_id first: an unhashable data_id raises TypeError
+        # before the node is entered anywhere
+        clone_list = self._nodes_by_data_id.get(node._data_id)
+        if clone_list is None:
+            self._nodes_by_data_id[node._data_id] = [node]
+        else:
             for clone in clone_list:
                 if clone.parent is node.parent:
-                    del self._node_by_id[node._node_id]
                     raise UniqueConstraintError("Node.data already exists in parent")
             clone_list.append(node)
-        except KeyError:
-            self._nodes_by_data_id[node._data_id] = [node]
+        self._node_by_id[node._node_id] = node
 
     def _unregister(self, node: Node, *, clear: bool = True) -> None:
         """Unlink node from this tree (children must be unregistered first)."""
